@@ -602,4 +602,71 @@ def _short(obs):
     return s if len(s) < 1500 else s[:700] + ' ... ' + s[-700:]
 
 
-FAMILIES = [Histories(), HashSeeds(), OptionHistories()]
+ROUTE_TC = """TC-MIB DEFINITIONS ::= BEGIN
+IMPORTS TEXTUAL-CONVENTION FROM SNMPv2-TC;
+Colour ::= INTEGER { red(1), green(2), blue(3) }
+WarmColour ::= Colour { red(1) }
+Flags ::= TEXTUAL-CONVENTION STATUS current DESCRIPTION "d" SYNTAX BITS { b0(0), b1(1), b2(2) }
+Short ::= OCTET STRING (SIZE (0..8))
+Shorter ::= Short (SIZE (0..4))
+END
+"""
+ROUTE_USER = """USER-MIB DEFINITIONS ::= BEGIN
+IMPORTS OBJECT-TYPE, enterprises FROM SNMPv2-SMI WarmColour, Colour, Flags, Shorter FROM TC-MIB;
+userRoot OBJECT IDENTIFIER ::= { enterprises 4141 }
+userWarm OBJECT-TYPE SYNTAX WarmColour MAX-ACCESS read-write STATUS current DESCRIPTION "d" DEFVAL { red } ::= { userRoot 1 }
+userAny OBJECT-TYPE SYNTAX Colour { green(2), blue(3) } MAX-ACCESS read-write STATUS current DESCRIPTION "d" DEFVAL { blue } ::= { userRoot 2 }
+userFlags OBJECT-TYPE SYNTAX Flags MAX-ACCESS read-write STATUS current DESCRIPTION "d" ::= { userRoot 3 }
+userShort OBJECT-TYPE SYNTAX Shorter MAX-ACCESS read-write STATUS current DESCRIPTION "d" DEFVAL { "ab" } ::= { userRoot 4 }
+END
+"""
+ROUTE_THIRD = """THIRD-MIB DEFINITIONS ::= BEGIN
+IMPORTS OBJECT-TYPE, enterprises FROM SNMPv2-SMI WarmColour FROM TC-MIB userRoot FROM USER-MIB;
+thirdWarm OBJECT-TYPE SYNTAX WarmColour { red(1) } MAX-ACCESS read-write STATUS current DESCRIPTION "d" DEFVAL { red } ::= { userRoot 9 }
+END
+"""
+
+
+class Routes(object):
+    name = 'same-module-by-different-routes'
+    describe = ('a module of named types (a two-level enumeration, a BITS TC, a two-level SIZE chain), a module of objects with '
+                'DEFVALs over them and a third one on top: every non-empty ordered request list over the three (15 routes) on a '
+                'fresh compiler each, both back ends - the text written for a module is the same whichever route led to it')
+
+    def blocks(self, tier):
+        return [{'backend': b} for b in ('json', 'pysnmp')]
+
+    def cases(self, block, tier):
+        names = ['TC-MIB', 'USER-MIB', 'THIRD-MIB']
+        routes = []
+        for r in (1, 2, 3):
+            for p in itertools.permutations(names, r):
+                routes.append(list(p))
+        yield {'backend': block['backend'], 'routes': routes}
+
+    def run_case(self, case):
+        seen = {}
+        vs = []
+        for route in case['routes']:
+            res, written = env.compile_set({'TC-MIB': ROUTE_TC, 'USER-MIB': ROUTE_USER, 'THIRD-MIB': ROUTE_THIRD}, route,
+                                           codegen=case['backend'], dialect=env.fresh_parser('smiV2'))
+            for name, text in sorted(written.items()):
+                key = hashlib.sha1(mask(text).encode()).hexdigest()
+                if name in seen and seen[name][0] != key:
+                    a, b = seen[name][2].splitlines(), mask(text).splitlines()
+                    diff = [(x, y) for x, y in zip(a, b) if x != y][:3]
+                    vs.append(('C12|routes|%s|%s-differs-between-routes' % (case['backend'], name),
+                               'compile(%s) and compile(%s) write different texts for %s; first differing lines: %r' % (
+                                   ', '.join(seen[name][1]), ', '.join(route), name, diff)))
+                seen.setdefault(name, (key, route, mask(text)))
+            for name in route:
+                if res.get(name) != 'compiled':
+                    vs.append(('C12|routes|%s|%s-%s' % (case['backend'], name, res.get(name)),
+                               'route %r: %r' % (route, getattr(res.get(name), 'error', None))))
+        dedup = {}
+        for sig, d in vs:
+            dedup.setdefault(sig, d)
+        return repr(sorted((k, v[0][:8]) for k, v in seen.items())), list(dedup.items()), len(case['routes'])
+
+
+FAMILIES = [Histories(), HashSeeds(), OptionHistories(), Routes()]
